@@ -66,7 +66,8 @@ WINDOW_OUTSIDE = ("more than 2 neighbours of the sale; more than 3 affiliates; f
                   "concrete anchor); split ratios other than m-for-1 with m<=3 in the C15 window shape")
 
 PROPS["C02"] = {
-    "quick": [{"name": "window", "harnesses": ["c02_w_buy_sale_buy"], "jobs": 1, "mem_gb": 28, "harness_timeout_s": 2400}],
+    "quick": [{"name": "window", "harnesses": ["c02_w_buy_sale_buy"], "jobs": 1, "mem_gb": 28, "harness_timeout_s": 2400,
+               "cbmc_args": ["--max-field-sensitivity-array-size", "400"]}],
     "thorough": [{"name": "window", "harnesses": ["c02_w_buy_sale_buy", "c02_w_otherbuy_sale_sell",
                                                   "c02_w_regbuy_sale_otherbuy_othersell", "c02_amount_one_buyer",
                                                   "c02_specified_sfl_validated"],
@@ -111,9 +112,9 @@ PROPS["C11"] = {
                 "through CBMC"),
 }
 PROPS["C15"] = {
-    "quick": [{"name": "splits", "harnesses": ["c15_w_buy_split_sale", "c01_split_a0_m1"], "jobs": 2, "mem_gb": 28,
-               "harness_timeout_s": 2400}],
-    "thorough": [{"name": "splits", "harnesses": ["c15_w_buy_split_sale"] + C01_SPLIT, "jobs": 3, "mem_gb": 28,
+    "quick": [{"name": "splits", "harnesses": ["c15_w_buy_split_sale", "c15_w_sale_split_buy", "c01_split_a0_m1"], "jobs": 3,
+               "mem_gb": 28, "harness_timeout_s": 2400, "cbmc_args": ["--max-field-sensitivity-array-size", "400"]}],
+    "thorough": [{"name": "splits", "harnesses": ["c15_w_buy_split_sale", "c15_w_sale_split_buy"] + C01_SPLIT, "jobs": 3, "mem_gb": 28,
                   "timeout_s": 20000, "harness_timeout_s": 6000}],
     "functions": WINDOW_FUNCS + ["delta_for_tx (Split arm)", "SplitRatio::pre_to_post_factor"],
     "bounds": ("window: Buy x, m-for-1 split (m 1..3), loss sale; buy and split at symbolic offsets 0..35/0..45 days "
@@ -351,3 +352,24 @@ CLAIMS["C04"] = {
     "design_ref": "DESIGN.md 0, 5 C04, 7",
 }
 NOT_APPLICABLE.pop("C04", None)
+
+PROPS["C20"] = {
+    "quick": [{"name": "chunks", "harnesses": ["c20_page_chunks_cover_every_page_once_or_more"], "jobs": 1,
+               "features": "pdf_parse", "cbmc_args": BIG}],
+    "thorough": [{"name": "chunks", "harnesses": ["c20_page_chunks_cover_every_page_once_or_more"], "jobs": 1,
+                  "features": "pdf_parse", "cbmc_args": BIG}],
+    "functions": ["peripheral::pdf::LazyPageTextVec::safe_page_chunks_with_remainder_pn"],
+    "bounds": ("documents of 0..4 pages; two hint groups of two page numbers each, every number symbolic in 0..6 (so 0, "
+               "out-of-range numbers and duplicates are inside); unwind 6"),
+    "outside": ("more than 4 pages / 2x2 hints; OptimizedPageIter (needs a lopdf::Document); the allocation-table parser "
+                "FmvParseSm / parse_statement_text (regex-driven state machine over extracted text: not encodable)"),
+}
+CLAIMS["C20"] = {
+    "text": ("Bounded model checking of the page-hint sanitiser: for every page count up to 4 and every pair of hint groups "
+             "with symbolic page numbers (including 0, out-of-range and repeated numbers) the chunks returned contain only "
+             "existing pages, contain every page of the document at least once (exactly once when hinted at most once), "
+             "and keep the hinted order inside a group."),
+    "note": (TRUSTED + "Only the page-chunk clause of C20 is covered; the statement-text parser is outside the check."),
+    "design_ref": "DESIGN.md 0, 5 C20",
+}
+NOT_APPLICABLE.pop("C20", None)
